@@ -99,7 +99,13 @@ def table(fl: Flow, keep: Optional[Callable[[str, str], bool]] = None):
                     nc.append((resolve_under(fl, t, _cond_ast(nc)) if nc else t, pol))
                 cond = tuple(nc)
             expr = resolve_under(fl, expr, _cond_ast(cond))
-        s = fl.canon(expr)
+        # a value is printed under the condition of its effect: what it would be on paths where the effect does not happen is nobody's business
+        pr_ = fl.cprinter
+        pr_.assume = pr_._bool(_cond_ast(cond)) if cond else None
+        try:
+            s = fl.canon(expr)
+        finally:
+            pr_.assume = None
         if keep is not None and not keep(e.kind, s):
             continue
         effs.append((e.kind, s, fl.canon_cond(cond), e))
@@ -268,6 +274,9 @@ def _merge_exclusive_stores(fl: Flow):
                 else:
                     rest = [_cond_ast(x.cond[len(common):]) for x in group]
                     cond_m = tuple(common) + ((ast.BoolOp(op=ast.Or(), values=rest), True),)
+                # the default arm must not be described outside the condition under which the store happens at all
+                d_ast = ast.BoolOp(op=ast.Or(), values=[_cond_ast(x.cond) for x in group]) if len(group) > 1 else _cond_ast(group[0].cond)
+                val = ast.IfExp(test=d_ast, body=val, orelse=ast.Name(id="NO_STORE", ctx=ast.Load()))
                 new_e = ast.Assign(targets=e.expr.targets, value=val)
                 new_e._merged_arms = True  # type: ignore[attr-defined]
                 out.append((e, new_e, cond_m))
